@@ -234,7 +234,7 @@ pub fn profile(max_len: usize) -> Profile {
 
 /// straight-line programs that write kilobytes of multi-byte characters without reading input: at level 2 all of it is produced
 /// during pre-execution and re-emitted before the residual program runs (sizes around 4 KiB / 8 KiB / 64 KiB of UTF-8)
-fn big_output_strategy() -> BoxedStrategy<Case2> {
+pub fn big_output_strategy() -> BoxedStrategy<Case2> {
     let ch = prop::sample::select(vec![(233usize, 2usize), (2048, 3), (0xAC00, 3), (0x1F600, 4), (0x10000, 4)]);
     (ch, prop::sample::select(vec![4096usize, 8192, 65536]), -3i64..=3, 0usize..4, 1usize..=2, any::<bool>())
         .prop_map(|((cp, len), boundary, off, ascii, target, then_read)| {
